@@ -669,3 +669,38 @@ m('C19', 'layered: backward skipped for the horizontal conductivity', MP,
 m('C19', '_get_points: source method uses the receiver', MP,
   "        p1 = p0\n        method = 'midpoint'", "        p0 = p1\n        method = 'midpoint'",
   'C19.L4')
+
+# ------------------------------------------- rules added after the seeded round
+m('C07', 'gradient: scatter target allocated once, never zeroed', SIMS,
+  "                    grad = np.zeros((3, *shape), order='F')\n",
+  "                    if 'grad' not in locals() or grad.shape[1:] != shape:\n                        grad = np.zeros((3, *shape), order='F')\n",
+  'C07.G1')
+m('C09', '_point_vector: wrong size passed for the z axis', FIELDS,
+  "get_index_and_strength(iz, nz, coo[2], zz)", "get_index_and_strength(iz, ny, coo[2], zz)",
+  'C09.PV')
+m('C10', 'Dipole: azimuth/elevation unpacked in swapped order', ELEC,
+  "                azimuth, elevation, length = dipole_to_point(points)",
+  "                elevation, azimuth, length = dipole_to_point(points)", 'C10.GE')
+m('C12', 'compute: _computed set by single-pair computations', SIMS,
+  "        elif source is None and frequency is None:\n            self._computed = True",
+  "        else:\n            self._computed = True", 'C12.OW6')
+m('C13', 'compute(observed): cached weights kept', SIMS,
+  "            for key in ['residual', 'weights']:\n                if key in self.data.keys():\n                    del self.data[key]\n            for name in ['_dict_bfield', '_dict_bfield_info']:\n                if hasattr(self, name):\n                    delattr(self, name)\n\n        elif",
+  "            for key in ['residual']:\n                if key in self.data.keys():\n                    del self.data[key]\n            for name in ['_dict_bfield', '_dict_bfield_info']:\n                if hasattr(self, name):\n                    delattr(self, name)\n\n        elif",
+  'C13.N5')
+m('C14', 'MapLnConductivity.backward clipped', MAPS,
+  "        return np.exp(mapped)", "        return np.exp(np.clip(mapped, -12, 12))", 'C14.M')
+m('C17', 'hdf5: groups without track_order', IO,
+  "fname.create_group(key, track_order=True)", "fname.create_group(key)", 'C17.K3')
+m('C17', 'to_dict: one-shot _what_to_file never consumed', SIMS,
+  "        if hasattr(self, '_what_to_file'):\n            what = self._what_to_file\n            delattr(self, '_what_to_file')",
+  "        what = getattr(self, '_what_to_file', what)", 'C17.K4')
+m('C18', 'parser: add_noise read as a string', PARSER,
+  "            noise_kwargs[key] = cfg.getboolean('noise_opts', key)",
+  "            noise_kwargs[key] = cfg.get('noise_opts', key)", 'C18.Q6')
+m('C18', 'main: --layered default False', MAIN,
+  '        "-l", "--layered",\n        action="store_true",\n        default=None,',
+  '        "-l", "--layered",\n        action="store_true",\n        default=False,', 'C18.Q4')
+n('C07', 'gradient: scatter target renamed', SIMS,
+  "                    grad = np.zeros((3, *shape), order='F')\n",
+  "                    grad = np.zeros((3, *shape), order='F')\n                    del_me = 0\n")
